@@ -428,9 +428,6 @@ func iterElems(v V) ([]V, bool) {
 }
 
 func stringMethod(name string, s []byte, args []V) (V, bool) {
-	if name == "format" {
-		return errV, false // no copy of the specification here: CPython only
-	}
 	wantStr := func(i int) ([]byte, bool) {
 		if len(args) <= i || args[i].T != "str" {
 			return nil, false
@@ -1204,6 +1201,13 @@ func oracle(c *Case) (V, *V, bool) {
 		a := V{T: "list", L: out}
 		return vNone(), &a, true
 	case "call":
+		if c.X.T == "str" && c.Name == "format" {
+			v, ok := formatSpec(c.X.str(), c.Args, c.Kw)
+			return v, nil, ok
+		}
+		if len(c.Kw) > 0 {
+			return errV, nil, true // no other method of this property accepts keyword arguments
+		}
 		if c.X.T == "str" {
 			v, ok := stringMethod(c.Name, []byte(c.X.str()), c.Args)
 			return v, nil, ok
@@ -1217,7 +1221,8 @@ func oracle(c *Case) (V, *V, bool) {
 	case "bin":
 		x, y := *c.X, c.Args[0]
 		if c.Name == "%" {
-			return errV, nil, false
+			v, ok := interpolateSpec(x, y)
+			return v, nil, ok
 		}
 		if c.Name == "+" {
 			// spec.md "Concatenation": string + string, list + list, tuple + tuple (not bytes)
@@ -1261,4 +1266,373 @@ func sortIntKeys(c *Case) bool {
 		}
 	}
 	return true
+}
+
+// ---- str(x), repr(x), string.format and % interpolation (spec.md "string·format",
+// "String interpolation").  Written from the specification text as character scanners.
+
+// reprV: repr(x); ok=false for values whose text this copy does not define (floats other than
+// short decimals, iterator views ...).
+func reprV(v V) (string, bool) {
+	switch v.T {
+	case "none":
+		return "None", true
+	case "bool":
+		if v.B {
+			return "True", true
+		}
+		return "False", true
+	case "int":
+		return v.big().String(), true
+	case "float":
+		f := v.float()
+		if f == float64(int64(f)) && f > -1e15 && f < 1e15 {
+			return fmt.Sprintf("%d.0", int64(f)), true
+		}
+		if f*16 == float64(int64(f*16)) && f > -1e6 && f < 1e6 {
+			t := fmt.Sprintf("%.4f", f)
+			for t[len(t)-1] == '0' {
+				t = t[:len(t)-1]
+			}
+			return t, true
+		}
+		return "", false
+	case "str", "bytes":
+		out := []byte{'"'}
+		if v.T == "bytes" {
+			out = []byte{'b', '"'}
+		}
+		for _, c := range []byte(v.str()) {
+			switch {
+			case c == '"' || c == 92:
+				out = append(out, 92, c)
+			case c == 10:
+				out = append(out, 92, 'n')
+			case c == 9:
+				out = append(out, 92, 't')
+			case c == 13:
+				out = append(out, 92, 'r')
+			case c < 32 || c > 126:
+				return "", false
+			default:
+				out = append(out, c)
+			}
+		}
+		return string(append(out, '"')), true
+	case "list", "tuple":
+		open, close := "[", "]"
+		if v.T == "tuple" {
+			open, close = "(", ")"
+		}
+		t := open
+		for i, e := range v.L {
+			r, ok := reprV(e)
+			if !ok {
+				return "", false
+			}
+			if i > 0 {
+				t += ", "
+			}
+			t += r
+		}
+		if v.T == "tuple" && len(v.L) == 1 {
+			t += ","
+		}
+		return t + close, true
+	case "dict":
+		t := "{"
+		for i := 0; i+1 < len(v.L); i += 2 {
+			k, ok1 := reprV(v.L[i])
+			x, ok2 := reprV(v.L[i+1])
+			if !ok1 || !ok2 {
+				return "", false
+			}
+			if i > 0 {
+				t += ", "
+			}
+			t += k + ": " + x
+		}
+		return t + "}", true
+	case "range":
+		if v.R[2] != 1 {
+			return fmt.Sprintf("range(%d, %d, %d)", v.R[0], v.R[1], v.R[2]), true
+		} else if v.R[0] != 0 {
+			return fmt.Sprintf("range(%d, %d)", v.R[0], v.R[1]), true
+		}
+		return fmt.Sprintf("range(%d)", v.R[1]), true
+	}
+	return "", false
+}
+
+// strOfV: str(x) -- a string is itself, everything else as repr
+func strOfV(v V) (string, bool) {
+	if v.T == "str" {
+		return v.str(), true
+	}
+	return reprV(v)
+}
+
+func allDigits(s string) bool {
+	for i := 0; i < len(s); i++ {
+		if s[i] < '0' || s[i] > '9' {
+			return false
+		}
+	}
+	return true
+}
+
+// formatSpec: S.format(*args, **kwargs)
+func formatSpec(f string, args []V, kw []V) (V, bool) {
+	var out []byte
+	next := 0 // next automatic index
+	auto, manual := false, false
+	for i := 0; i < len(f); {
+		c := f[i]
+		if c == '}' {
+			if i+1 < len(f) && f[i+1] == '}' {
+				out = append(out, '}')
+				i += 2
+				continue
+			}
+			return errV, true // a single '}'
+		}
+		if c != '{' {
+			out = append(out, c)
+			i++
+			continue
+		}
+		if i+1 < len(f) && f[i+1] == '{' {
+			out = append(out, '{')
+			i += 2
+			continue
+		}
+		// a replacement field: up to the next '}'
+		j := i + 1
+		for j < len(f) && f[j] != '}' {
+			j++
+		}
+		if j == len(f) {
+			return errV, true // unmatched '{'
+		}
+		field := f[i+1 : j]
+		i = j + 1
+		// field = name [ '!' conv ] [ ':' spec ]; each field starts afresh: conversion s, empty spec
+		name, conv, spec := field, "s", ""
+		bang := -1
+		for k := 0; k < len(field); k++ {
+			if field[k] == '!' {
+				bang = k
+				break
+			}
+		}
+		if bang >= 0 {
+			name = field[:bang]
+			rest := field[bang+1:]
+			conv = rest
+			for k := 0; k < len(rest); k++ {
+				if rest[k] == ':' {
+					conv, spec = rest[:k], rest[k+1:]
+					break
+				}
+			}
+		} else {
+			for k := 0; k < len(field); k++ {
+				if field[k] == ':' {
+					name, spec = field[:k], field[k+1:]
+					break
+				}
+			}
+		}
+		var arg *V
+		switch {
+		case name == "":
+			if manual {
+				return errV, true
+			}
+			auto = true
+			if next >= len(args) {
+				return errV, true
+			}
+			arg = &args[next]
+			next++
+		case allDigits(name):
+			if auto {
+				return errV, true
+			}
+			manual = true
+			if len(name) > 9 {
+				return errV, true // far beyond any argument list
+			}
+			n := 0
+			for k := 0; k < len(name); k++ {
+				n = n*10 + int(name[k]-'0')
+			}
+			if n >= len(args) {
+				return errV, true
+			}
+			arg = &args[n]
+		default:
+			for k := 0; k+1 < len(kw); k += 2 {
+				if kw[k].str() == name {
+					arg = &kw[k+1]
+					break
+				}
+			}
+			if arg == nil {
+				return errV, true // keyword not supplied
+			}
+		}
+		if spec != "" {
+			return errV, true // "Currently it must be empty"
+		}
+		var t string
+		var ok bool
+		switch conv {
+		case "s":
+			t, ok = strOfV(*arg)
+		case "r":
+			t, ok = reprV(*arg)
+		default:
+			return errV, true
+		}
+		if !ok {
+			return errV, false
+		}
+		out = append(out, t...)
+	}
+	return vStr(string(out)), true
+}
+
+// interpolateSpec: format % args
+func interpolateSpec(fv, x V) (V, bool) {
+	if fv.T != "str" {
+		return errV, false
+	}
+	f := fv.str()
+	var operands []V
+	if x.T == "tuple" {
+		operands = x.L
+	} else {
+		operands = []V{x}
+	}
+	isMap := x.T == "dict"
+	var out []byte
+	used := 0
+	for i := 0; i < len(f); {
+		if f[i] != '%' {
+			out = append(out, f[i])
+			i++
+			continue
+		}
+		i++
+		if i < len(f) && f[i] == '%' {
+			out = append(out, '%')
+			i++
+			continue
+		}
+		var arg V
+		if i < len(f) && f[i] == '(' {
+			j := i + 1
+			for j < len(f) && f[j] != ')' {
+				j++
+			}
+			if j == len(f) || !isMap {
+				return errV, true
+			}
+			key := f[i+1 : j]
+			found := false
+			for k := 0; k+1 < len(x.L); k += 2 {
+				if x.L[k].T == "str" && x.L[k].str() == key {
+					arg, found = x.L[k+1], true
+				}
+			}
+			if !found {
+				return errV, true
+			}
+			i = j + 1
+			if i < len(f) && f[i] == '%' {
+				return errV, false // "%(key)%": not described by the specification text
+			}
+		} else {
+			if used >= len(operands) {
+				return errV, true // not enough arguments
+			}
+			arg = operands[used]
+		}
+		if i == len(f) {
+			return errV, true // incomplete conversion
+		}
+		conv := f[i]
+		i++
+		used++
+		switch conv {
+		case 's':
+			t, ok := strOfV(arg)
+			if !ok {
+				return errV, false
+			}
+			out = append(out, t...)
+		case 'r':
+			t, ok := reprV(arg)
+			if !ok {
+				return errV, false
+			}
+			out = append(out, t...)
+		case 'd', 'i', 'o', 'x', 'X':
+			var z *big.Int
+			switch arg.T {
+			case "int":
+				z = arg.big()
+			case "float":
+				fl := arg.float()
+				if fl != float64(int64(fl)) && (fl > 1e15 || fl < -1e15) {
+					return errV, false
+				}
+				z = big.NewInt(int64(fl)) // truncation toward zero
+			default:
+				return errV, true // a Boolean is not a number
+			}
+			base := map[byte]int{'d': 10, 'i': 10, 'o': 8, 'x': 16, 'X': 16}[conv]
+			t := z.Text(base)
+			if conv == 'X' {
+				b := []byte(t)
+				for k, ch := range b {
+					b[k] = upc(ch)
+				}
+				t = string(b)
+			}
+			out = append(out, t...)
+		case 'c':
+			switch arg.T {
+			case "int":
+				z := arg.big()
+				if !z.IsInt64() || z.Int64() < 0 || z.Int64() > 0x10FFFF {
+					return errV, true
+				}
+				if z.Int64() > 127 {
+					return errV, false // outside ASCII
+				}
+				out = append(out, byte(z.Int64()))
+			case "str":
+				t := arg.str()
+				if len(t) != 1 {
+					return errV, len(t) == 0 || t[0] < 128
+				}
+				out = append(out, t[0])
+			default:
+				return errV, true
+			}
+		case 'e', 'f', 'g', 'E', 'F', 'G':
+			if arg.T != "int" && arg.T != "float" {
+				return errV, true
+			}
+			return errV, false // float formatting: no copy here
+		default:
+			return errV, true // unknown conversion
+		}
+	}
+	if used < len(operands) && !isMap {
+		return errV, true // too many arguments
+	}
+	return vStr(string(out)), true
 }
